@@ -100,6 +100,19 @@ static void ts_lexer__get_chunk(Lexer *self) {
   }
 }
 
+// Whether the character that was just decoded from the `size` bytes left in
+// the chunk may continue beyond them: a decoding error, or a UTF-16 lead
+// surrogate with less than one more code unit behind it.
+static bool ts_lexer__lookahead_is_truncated(const Lexer *self, uint32_t size) {
+  if (size >= 4) return false;
+  if (self->data.lookahead == TS_DECODE_ERROR) return true;
+  return
+    (self->input.encoding == TSInputEncodingUTF16LE ||
+     self->input.encoding == TSInputEncodingUTF16BE) &&
+    U16_IS_LEAD(self->data.lookahead) &&
+    size - self->lookahead_size < 2;
+}
+
 // Decode the next unicode character in the current chunk of source code.
 // This assumes that the lexer has already retrieved a chunk of source
 // code that spans the current position.
@@ -130,11 +143,39 @@ static void ts_lexer__get_lookahead(Lexer *self) {
 
   // If this chunk ended in the middle of a multi-byte character,
   // try again with a fresh chunk.
-  if (self->data.lookahead == TS_DECODE_ERROR && size < 4) {
+  if (ts_lexer__lookahead_is_truncated(self, size)) {
     ts_lexer__get_chunk(self);
     chunk = (const uint8_t *)self->chunk;
     size = self->chunk_size;
     self->lookahead_size = decode(chunk, size, &self->data.lookahead);
+
+    // If the fresh chunk also ends inside the character (the input's pieces
+    // have fixed boundaries), put the character together from the bytes of
+    // this chunk and of the chunks that follow it.
+    if (size > 0 && size < 4 && ts_lexer__lookahead_is_truncated(self, size)) {
+      uint8_t buffer[4];
+      uint32_t buffer_size = size;
+      memcpy(buffer, chunk, size);
+      while (buffer_size < 4) {
+        uint32_t next_size = 0;
+        TSPoint next_point = self->current_position.extent;
+        next_point.column += buffer_size;
+        const char *next_chunk = self->input.read(
+          self->input.payload,
+          self->current_position.bytes + buffer_size,
+          next_point,
+          &next_size
+        );
+        if (!next_size) break;
+        for (uint32_t i = 0; i < next_size && buffer_size < 4; i++) {
+          buffer[buffer_size++] = (uint8_t)next_chunk[i];
+        }
+      }
+      if (buffer_size > size) {
+        self->lookahead_size = decode(buffer, buffer_size, &self->data.lookahead);
+      }
+      ts_lexer__get_chunk(self);
+    }
   }
 
   if (self->data.lookahead == TS_DECODE_ERROR) {
